@@ -64,7 +64,8 @@ async def segment_fetcher(app: NDNApp, name: NonStrictName, timeout=4000, retry_
         seg_no = 0
     # Following Interests
     while True:
-        name[-1] = Component.from_segment(seg_no)
+        # a new list: the one express_interest returned is shared with every Interest the same Data satisfied
+        name = name[:-1] + [Component.from_segment(seg_no)]
         name, meta, content = await retry(False)
         yield content
         if meta.final_block_id == name[-1]:
